@@ -119,3 +119,41 @@ def run(ctx):
     from skchange.costs import L2Cost as _L2c
     variants_stream(ctx, "MVCAPA(L2Cost saving)", lambda: _MVCAPA(collective_saving=_L2c(param=0.0), point_saving=_L2c(param=0.0), min_segment_length=2, max_segment_length=30),
                     ctx.n(2, 10), p_choices=(2, 3), nested=("collective_saving__param", 1.5))
+    # ---- MVCAPA() with DEFAULT hyper-parameters on long, wide float data: affected columns of every reported anomaly = the best non-empty prefix of the columns sorted by saving,
+    # ---- under the penalties the detector itself uses (sparse penalty for collective anomalies, the point penalty for point anomalies); near-ties are skipped
+    from skchange.anomaly_detectors.mvcapa import capa_penalty_factory
+    from skchange.anomaly_scores import L2Saving as _L2S16
+    for it in range(ctx.n(2, 8)):
+        n_, p_ = rng.randint(250, 600), rng.choice([5, 10])
+        Xw = np.asarray([[rng.gauss(0, 1) for _ in range(p_)] for _ in range(n_)])
+        for _ in range(3):
+            a_ = rng.randint(10, n_ - 60)
+            cols_ = rng.sample(range(p_), rng.randint(1, p_))
+            Xw[a_:a_ + rng.randint(8, 40), cols_] += rng.choice([3.0, -4.0, 6.0])
+        Xw[rng.randrange(n_), rng.sample(range(p_), 2)] += 12.0
+        dm = _MVCAPA().fit(Xw)
+        ym = dm.predict(Xw)
+        tm = dm.transform(Xw).to_numpy()
+        sa, sb = capa_penalty_factory("sparse")(n_, p_, 1, dm.collective_penalty_scale)
+        pa, pb = capa_penalty_factory(dm.point_penalty)(n_, p_, 1, dm.point_penalty_scale)
+        sc16 = _L2S16().fit(Xw)
+        ctx.case({"default_scale_cols": it, "n": n_, "p": p_, "x0": float(Xw[0, 0])}, nontrivial=len(ym) > 0)
+        ctx.count("default_scale", "MVCAPA-columns")
+        for lab, (l_, r_, cc_) in enumerate(zip(ym["ilocs"].array.left, ym["ilocs"].array.right, ym["icolumns"]), start=1):
+            l_, r_ = int(l_), int(r_)
+            sav = sc16.evaluate(np.asarray([[l_, r_]]))[0]
+            alpha_, betas_ = (pa, pb) if r_ - l_ == 1 else (sa, sb)
+            order = np.argsort(-sav, kind="stable")
+            pen = np.cumsum(sav[order] - np.asarray(betas_, dtype=float)) - alpha_
+            k_ = int(np.argmax(pen))
+            srt = np.sort(pen)[::-1]
+            if len(srt) > 1 and srt[0] - srt[1] < 1e-7 * (abs(srt[0]) + 1):
+                continue
+            want = sorted(int(c) for c in order[: k_ + 1])
+            got = sorted(int(c) for c in cc_)
+            marked = sorted(int(j) for j in range(p_) if np.all(tm[l_:r_, j] == lab))
+            if got != want or marked != want:
+                ctx.violation(f"MVCAPA() with default hyper-parameters on a {n_} x {p_} series: anomaly [{l_}, {r_}) reports columns {got} (dense labels mark {marked}), the best non-empty "
+                              f"prefix of the columns sorted by saving is {want}", {"n": n_, "p": p_, "anomaly": [l_, r_], "icolumns": got, "expected": want, "savings": sav.tolist()},
+                              {"what": "default-scale-columns", "detector": "MVCAPA"})
+
